@@ -48,7 +48,8 @@ struct Variant {
     gzip: bool,
     order: usize,
     extra_column: bool,
-    counts_given: bool,
+    /// which of the two optional counts are given: (edges, vertices)
+    counts_given: (bool, bool),
     edge_extra_column: bool,
     /// whether the last row of each file ends with a newline
     trailing_newline: bool,
@@ -253,7 +254,7 @@ pub fn run(tier: Tier) -> i32 {
     for gzip in [false, true] {
         for order in 0..6 {
             for extra_column in [false, true] {
-                for counts_given in [true, false] {
+                for counts_given in [(true, true), (false, false), (true, false), (false, true)] {
                     for trailing_newline in [true, false] {
                         variants.push(Variant { gzip, order, extra_column, counts_given, edge_extra_column: order % 2 == 1, trailing_newline });
                     }
@@ -267,7 +268,7 @@ pub fn run(tier: Tier) -> i32 {
             st.nontrivial += 1;
         }
         // structured nets: every variant; enumerated nets: a rotating pair of variants (plain and gzip)
-        let vs: Vec<&Variant> = if name.starts_with('G') { vec![&variants[ni % variants.len()], &variants[(ni * 7 + 48) % variants.len()], &variants[(ni * 13 + 75) % variants.len()]] } else { variants.iter().collect() };
+        let vs: Vec<&Variant> = if name.starts_with('G') { vec![&variants[ni % variants.len()], &variants[(ni * 7 + 97) % variants.len()], &variants[(ni * 13 + 151) % variants.len()]] } else { variants.iter().collect() };
         for v in vs {
             st.evaluations += 1;
             st.transitions += 1;
@@ -277,8 +278,8 @@ pub fn run(tier: Tier) -> i32 {
             let (ep, vp) = write_graph(&dir, net, v);
             let vc = v.clone();
             let case = move || json!({"net_name": name, "net": net, "variant": format!("{:?}", vc)});
-            let comp = format!("graph_from_files.{}.{}", if v.gzip { "gzip" } else { "plain" }, if v.counts_given { "counts_given" } else { "counts_scanned" });
-            let r = guarded(|| Graph::from_files(&ep, &vp, if v.counts_given { Some(net.m()) } else { None }, if v.counts_given { Some(net.n) } else { None }, Some(false)));
+            let comp = format!("graph_from_files.{}.{}", if v.gzip { "gzip" } else { "plain" }, match v.counts_given { (true, true) => "counts_given", (false, false) => "counts_scanned", (true, false) => "edge_count_given_vertex_count_scanned", (false, true) => "edge_count_scanned_vertex_count_given" });
+            let r = guarded(|| Graph::from_files(&ep, &vp, if v.counts_given.0 { Some(net.m()) } else { None }, if v.counts_given.1 { Some(net.n) } else { None }, Some(false)));
             match r {
                 Err(p) => st.violation(&comp, "no_panic", net.size(), || p.clone(), &case),
                 Ok(Err(e)) => st.violation(&comp, "loads", net.size(), || e.to_string(), &case),
@@ -286,8 +287,10 @@ pub fn run(tier: Tier) -> i32 {
             }
             // the configuration-level builder
             let mut params = json!({"edge_list_input_file": ep, "vertex_list_input_file": vp, "verbose": false});
-            if v.counts_given {
+            if v.counts_given.0 {
                 params["n_edges"] = json!(net.m());
+            }
+            if v.counts_given.1 {
                 params["n_vertices"] = json!(net.n);
             }
             match guarded(|| DefaultGraphBuilder::build(&params)) {
@@ -298,7 +301,7 @@ pub fn run(tier: Tier) -> i32 {
             let _ = std::fs::remove_dir_all(&dir);
         }
         if ni == 5 || ni == 40 {
-            st.sample(3, || json!({"net_name": name, "net": net, "variants": "gzip x 6 vertex column orders x extra column x counts given/scanned"}));
+            st.sample(3, || json!({"net_name": name, "net": net, "variants": "gzip x 6 vertex column orders x extra column x 4 count modes"}));
         }
     }
     // per-edge tables are aligned with edge ids by row
@@ -411,7 +414,7 @@ pub fn run(tier: Tier) -> i32 {
     finish(
         &info,
         st,
-        "state = one edge/vertex list (all G(3,m,2) multigraphs with self loops, stars and hubs with in/out degree 0..8, isolated vertices); transition = one load of files written in one variant (plain/gzip x 6 vertex column orders x extra columns x counts given/scanned x last row with/without trailing newline) through Graph::from_files and DefaultGraphBuilder, compared accessor by accessor with the lists; per-edge tables of 1..40 rows; bindings accessors; non-trivial = at least two edges",
+        "state = one edge/vertex list (all G(3,m,2) multigraphs with self loops, stars and hubs with in/out degree 0..8, isolated vertices); transition = one load of files written in one variant (plain/gzip x 6 vertex column orders x extra columns x each of the two counts given or scanned (4 modes) x last row with/without trailing newline) through Graph::from_files and DefaultGraphBuilder, compared accessor by accessor with the lists; per-edge tables of 1..40 rows; bindings accessors; non-trivial = at least two edges",
         true,
         json!({"enumerated_family": spec.describe(), "max_degree": 8, "variants": 96}),
         vec!["vertex coordinates are written as the shortest decimal rendering of an f32, so the comparison is exact".into()],
